@@ -1,9 +1,9 @@
 SPECIFICATION Spec
 CONSTANTS
   Kinds <- KindsQ
-  Alpha <- AlphaQ
+  Alpha <- AlphaS
   MaxMsg = 4
-  Caps <- CapsQ
+  Caps <- CapsZ
   Grows <- GrowsQ
   Pres <- PresQ
   CapMax = 10
